@@ -30,6 +30,8 @@ type Store struct {
 	Log    []Rec
 	FailAt int // >=0: the write that would get this log index (and later ones) fails
 	Gets   int
+	// RecordGets, when non-nil, collects every key that was read
+	RecordGets map[string]bool
 }
 
 var ErrInjected = errors.New("injected write failure")
@@ -71,6 +73,9 @@ func (s *Store) Get(k []byte) ([]byte, error) {
 	s.mu.Lock()
 	defer s.mu.Unlock()
 	s.Gets++
+	if s.RecordGets != nil {
+		s.RecordGets[string(k)] = true
+	}
 	v, ok := s.data[string(k)]
 	if !ok {
 		return nil, wmpt.ErrKVNotFound
@@ -82,7 +87,7 @@ func (s *Store) Put(k, v []byte) error {
 	return s.write(Rec{Ops: []KV{{K: string(k), V: append([]byte(nil), v...)}}})
 }
 func (s *Store) Delete(k []byte) error { return s.write(Rec{Ops: []KV{{K: string(k), Del: true}}}) }
-func (s *Store) Close()               {}
+func (s *Store) Close()                {}
 
 func (s *Store) NewBatch() storage.Batcher { return &batch{s: s} }
 
